@@ -380,4 +380,21 @@ def run(F, rep):
     from engines import rule_visit_all
     rule_visit_all(F, rep, 'C05.Y1', lambda g: g.file.endswith('/analyser.cpp'), 30, 'analyser.cpp')
 
+    # ------------------------------------------------------------------ Q: late requalification (rules shared with C03/C17)
+    import requalify
+    requalify.rule_requalify(F, rep, 'C05.Q1', 'C05.Q2')
+
+    # ------------------------------------------------------------------ U2: the set of internal variables is closed before the results are published
+    rep.rule('C05.U2', 'AnalyserImpl::internalVariable(), which registers a new internal variable when it finds none, is not called any more once analyseModel has started to publish its results (the mappings from internal to public variables): '
+                       'a lookup by equivalence class at that stage resolves a dependency to a different public variable than the pointer the rest of the bookkeeping (e.g. the removal of an equation\'s dependency on its own unknown) compares with')
+    from faillog import _can_reach as _cr5
+    pub = [c for c in am.walk() if c.get('k') == 'Call' and c.get('mc') and c.get('fn') in ('emplace', 'insert') and 'aiv2avMappings' in render(receiver(c))]
+    ivc = [c for c in am.walk() if c.get('k') == 'Call' and c.get('fn') == 'internalVariable' and am.enclosing_lambda(c) is None]
+    if not pub or len(ivc) < 2:
+        raise AnalysisBroken('analyseModel: publication of aiv2avMappings / internalVariable calls not found')
+    cfg5 = am.cfg()
+    for c in ivc:
+        late = _cr5(cfg5, pub[0], c)
+        rep.check(not late, 'C05.U2', 'analyseModel|%s@%d' % (render(c)[:40], sum(1 for x in ivc if x.get('l', 0) < c.get('l', 0))), am.where(c), '`%s` is evaluated after the public variables have been created' % render(c)[:60], 'before publication')
+
 
